@@ -230,6 +230,11 @@ def opDelete (c : Ctx) : Outcome :=
     let seg := match si.next with
       | some n => seg.upd n fun sl => { sl with prev := si.prev }
       | none => { seg with last := si.prev }
+    -- the slot leaves the stream: it is taken out of the attachment tree as well (it may never reach `freeSlot`)
+    let seg := match si.parent with
+      | some p => ((removeChild seg p i).2).upd i fun sl => { sl with parent := none }
+      | none => seg
+    let seg := detachChildren seg i (seg.slots.size + 1)
     let c := if c.is = c.highwater then { c with highwater := si.next, highpassed := false } else c
     let is' := match si.prev with | some p => some p | none => c.is
     .cont { c with seg := { seg with numGlyphs := seg.numGlyphs - 1 }, is := is' }
@@ -285,7 +290,7 @@ def setAttTo (c : Ctx) (i : Nat) (subindex : Nat) (value : Int) : Ctx :=
     | none => c
     | some other =>
       let si := c.seg.get i
-      if other = i ∨ some other = si.parent ∨ (c.seg.get other).copied then c else
+      if other = i ∨ some other = si.parent ∨ (c.seg.get other).copied ∨ (c.seg.get other).deleted then c else
       let seg := match si.parent with
         | some p => ((removeChild c.seg p i).2).upd i fun sl => { sl with parent := none }
         | none => c.seg
